@@ -30,9 +30,34 @@ def parseCsf (ws : List String) : Option CsfIn := do
   let same ← kv ws "same"
   pure { feeAmt := fee, convAmt := conv, others := others, navP := p, navA := a, bips := bips, sameDenom := same = "1" }
 
+/-- `den:amt:bips:rcpt` (`-` = no recipient) -/
+def parseDistCall (s : String) : Option DistCall :=
+  match s.splitOn ":" with
+  | [den, amt, bips, rcpt] =>
+    match parseInt? amt, parseNat? bips with
+    | some a, some b => some (den, a, b, if rcpt = "-" then "" else rcpt)
+    | _, _ => none
+  | _ => none
+
+def distDenoms : List Denom := ["nhash", "usd", "btc"]
+def distRecips : List String := ["r1", "r2", "r3"]
+
+private def perDenom (f : Denom → Int) : String := "/".intercalate (distDenoms.map fun d => toString (f d))
+
+def showDist (s : Dist) : String :=
+  let rs := distRecips.map fun r => s!"{r}={perDenom (Ledger.bal s.recips r)}"
+  s!"ok t={perDenom (Coins.amountOf s.total)} m={perDenom (Coins.amountOf s.module)} " ++ " ".intercalate rs
+
+/-- parse `a/b/c` -/
+def parseTripleSlash (s : String) : Option (List Int) := (s.splitOn "/").mapM parseInt?
+
 /-- Model output for one op line. -/
 def run (ws : List String) : String :=
   match ws with
+  | ["dist", calls] =>
+    match (splitList calls).mapM parseDistCall with
+    | some cs => showE showDist (increaseAll {} cs)
+    | none => "bad-op"
   | ["quoup", a, b] =>
     match ints [a, b] with
     | some [a, b] => if b = 0 then "panic:divzero" else toString (quoIntRoundUp a b)
@@ -66,6 +91,29 @@ private def isPanic (s : String) : Bool := s.startsWith "panic"
 def check (ws : List String) (impl : String) : String :=
   let iw := words impl
   match ws with
+  | ["dist", calls] =>
+    match (splitList calls).mapM parseDistCall with
+    | some cs =>
+      -- a call is refused only when it is reached, has something to split (positive amount, a
+      -- recipient) and names more than 10000 basis points (`increase_fails_iff`)
+      let reachedInvalid := match increaseAll {} cs with | .error _ => true | .ok _ => false
+      if reachedInvalid then
+        (if impl = "err:invalid" then "ok" else "fail:dist_accepts_invalid_bips")
+      else
+      match iw with
+      | "ok" :: rest =>
+        match (kv rest "t") >>= parseTripleSlash, (kv rest "m") >>= parseTripleSlash,
+              (distRecips.mapM fun r => (kv rest r) >>= parseTripleSlash) with
+        | some t, some m, some rs =>
+          let sumR := fun (i : Nat) => (rs.map fun r => r.getD i 0).foldl (· + ·) 0
+          let want := fun (d : Denom) => (cs.filter fun c => c.1 = d ∧ c.2.1 > 0).foldl (fun acc c => acc + c.2.1) (0 : Int)
+          if (List.range 3).any (fun i => t.getD i 0 ≠ m.getD i 0 + sumR i) then "fail:dist_adds_up"
+          else if (List.range 3).any (fun i => t.getD i 0 ≠ want (distDenoms.getD i "")) then "fail:dist_total"
+          else if (m ++ rs.flatten).any (· < 0) then "fail:nonneg"
+          else "ok"
+        | _, _, _ => "fail:unparsed"
+      | _ => "fail:never_fails:dist"
+    | none => "-"
   | ["quoup", a, b] =>
     match ints [a, b], parseInt? impl with
     | some [a, b], some r => if b = 0 then "-" else if r = roundAway a b then "ok" else "fail:quoup_round_away"
